@@ -55,7 +55,7 @@ VARIABLES sink,     \* sink[x]: set of stored things at sink x
 vars == <<sink, folders, slots, pending, nops, last>>
 
 Store(d) == <<"store", d>>
-Sinks == {Store(d) : d \in Devices} \cup {<<"server">>, <<"wire">>, <<"archive">>, <<"audit">>}
+Sinks == {Store(d) : d \in Devices} \cup {<<"server">>, <<"wire">>, <<"archive">>, <<"audit">>, <<"log">>}
 
 NoFolder == [name |-> "-", desc |-> "-", gen |-> 0]
 
